@@ -42,7 +42,7 @@ TF = 'chainables.tree_fns'
 
 
 def run(ctx: Ctx):
-  for r in (r1, r2, r3, r4, r5, r6):
+  for r in (r1, r2, r3, r4, r5, r6, r7):
     ctx.guard(r)
 
 
@@ -490,10 +490,46 @@ def r6(ctx: Ctx):
   ctx.floor(rule, 1, n)
 
 
+def r7(ctx: Ctx):
+  rule = 'R-C19-7'
+  ctx.rule(rule, '"exactly the concatenation of the input rows": merging the buffered chunks'
+           ' of a column never converts the rows — np.concatenate / np.stack / np.asarray in'
+           ' the re-batching helpers (_concat, _pad, rebatched_args) are called without a'
+           ' forced `dtype=` / `casting=`: numpy\'s own promotion keeps every value, a forced'
+           ' dtype (e.g. the first chunk\'s) silently truncates later rows (3.5 -> 3,'
+           ' \'hello\' -> \'h\')')
+  repo = ctx.repo
+  n = 0
+  for qn in ('_concat', '_pad', 'rebatched_args', '_batch_size'):
+    fi = repo.module(IU).functions.get(qn)
+    if fi is None:
+      continue
+    for c in ast.walk(fi.node):
+      if isinstance(c, ast.Call) and unparse(c.func) in ('np.concatenate', 'np.stack', 'np.hstack', 'np.vstack',
+                                                         'np.asarray', 'np.array'):
+        forced = [k.arg for k in c.keywords if k.arg in ('dtype', 'casting')]
+        if unparse(c.func) in ('np.asarray', 'np.array') and len(c.args) > 1:
+          forced.append('dtype')
+        if unparse(c.func) in ('np.concatenate', 'np.stack', 'np.hstack', 'np.vstack'):
+          n += 1
+        if forced:
+          ctx.fail(rule, fi, f'{qn}: chunks are merged with numpy\'s own type promotion',
+                   f'`{unparse(c)[:70]}` forces {forced}: rows of later chunks are cast to that type when the'
+                   ' chunks are merged — the emitted batch is no longer the concatenation of the input rows',
+                   node=c)
+        elif unparse(c.func) in ('np.concatenate', 'np.stack', 'np.hstack', 'np.vstack'):
+          ctx.ok(rule, fi, f'{qn}: {unparse(c.func)} without forced dtype', c)
+  ctx.floor(rule, 1, n)
+
+
 from mlmverif.selfcheck import B, OK  # noqa: E402
 
 _F = 'utils/iter_utils.py'
 VARIANTS = [
+    B('concat-forces-first-chunk-dtype', 'utils/iter_utils.py',
+      '    return np.concatenate(list(data))', "    return np.concatenate(list(data), dtype=np.asarray(batch).dtype, casting='unsafe')", 'R-C19-7'),
+    OK('concat-from-tuple', 'utils/iter_utils.py',
+       '    return np.concatenate(list(data))', '    return np.concatenate(tuple(data))'),
     B('output-rebatch-skipped-when-sizes-equal', 'chainables/tree_fns.py',
       '    if self.batch_size:\n      fn_outputs = iter_utils.rebatched_args(',
       '    if self.batch_size and self.batch_size != self.fn_batch_size:\n      fn_outputs = iter_utils.rebatched_args(',
